@@ -183,3 +183,17 @@ CHECKS['C17'] = dict(
         U('inpkg', 'TestVerifC17_EnvPrecedence', q(8000, 8), q(160000, 16, cap=1800), pkg='src'),
         U('inpkg', 'TestVerifC17_SubParsers', q(64000, 16), q(1600000, 16, cap=1800), pkg='src'),
     ])
+
+CHECKS['C16'] = dict(
+    title='The --listen endpoint is robust and enforces its access rules',
+    rule='request grammar: method/target/version variants x header order/case/duplicates/decoys x key exact/padded/wrong/prefix/suffix/empty/absent x Content-Length exact/absent/0/short/long/>1MiB/non-numeric/negative '
+         'x 20 action-list bodies (valid and invalid) x bare LF x body before headers x truncation at any byte x chunked delivery, then the client closes; plus arbitrary byte soups incl. 70 kB lines. '
+         'oracle: answer well-formed; with a key configured no action and no state without the exact key; invalid/incomplete requests have no side effects; a valid POST delivers exactly the --bind parse of its body; GET delivers no action. '
+         'non-trivial = a key is configured and the request reaches header parsing, or the request has a body',
+    assumptions=['handler level: the request handler is driven over net.Pipe with a fake action channel and state handler; the live endpoint (TCP, liveness, unsafe actions on non-local listeners) is exercised by the process-level harness'],
+    units=[
+        U('inpkg', 'TestVerifC16_Regress', q(), q(), pkg='src'),
+        U('inpkg', 'TestVerifC16_RequestGrammar', q(48000, 16), q(960000, 16, cap=1800), pkg='src'),
+        U('inpkg', 'TestVerifC16_ArbitraryBytes', q(24000, 16), q(480000, 16, cap=1800), pkg='src'),
+        U('inpkg', 'TestVerifC16_ListenAddress', q(2000, 1), q(20000, 1), pkg='src'),
+    ])
